@@ -263,7 +263,7 @@ func (g *tgen) expr(d int) js_ast.Expr {
 	if d <= 0 || g.r.Chance(15) {
 		return g.leaf()
 	}
-	switch g.r.Intn(24) {
+	switch g.r.Intn(25) {
 	case 0, 1, 2, 3, 4:
 		return mk(&js_ast.EBinary{Op: g.binop(), Left: g.expr(d - 1), Right: g.expr(d - 1)})
 	case 5, 6, 7:
@@ -446,6 +446,8 @@ func (g *tgen) expr(d int) js_ast.Expr {
 			l, rr = rr, l
 		}
 		return mk(&js_ast.EBinary{Op: op, Left: l, Right: rr})
+	case 22:
+		return g.logicalWithBooleanLeft(d)
 	default:
 		// boolean-context shapes
 		switch g.r.Intn(4) {
@@ -464,6 +466,76 @@ func (g *tgen) expr(d int) js_ast.Expr {
 			return mk(&js_ast.EIf{Test: g.expr(d - 1), Yes: g.expr(d - 1), No: g.lit()})
 		}
 	}
+}
+
+// literal arms on the nullish/falsy gap
+func (g *tgen) gapLit() js_ast.Expr {
+	switch g.r.Intn(12) {
+	case 0, 1:
+		return mk(js_ast.ENullShared)
+	case 2, 3:
+		return mk(js_ast.EUndefinedShared)
+	case 4:
+		return mk(&js_ast.ENumber{Value: 0})
+	case 5:
+		return mk(&js_ast.ENumber{Value: math.NaN()})
+	case 6:
+		return mk(&js_ast.EString{})
+	case 7:
+		return mk(&js_ast.EBoolean{Value: false})
+	case 8:
+		return mk(&js_ast.EBigInt{Value: "0"})
+	case 9:
+		return mk(&js_ast.EBoolean{Value: true})
+	case 10:
+		return mk(&js_ast.ENumber{Value: 1})
+	default:
+		return mk(&js_ast.EString{Value: utf16("a")})
+	}
+}
+
+// (x || lit) op f(), (x && lit) op f(), (c ? lit : y) op f(), !!x op f(), ... for
+// op in && || ??: SimplifyUnusedExpr may simplify the left operand as a boolean
+// only for && and ||
+func (g *tgen) logicalWithBooleanLeft(d int) js_ast.Expr {
+	x := g.ident()
+	if g.r.Chance(30) {
+		x = g.probeCall()
+	}
+	var left js_ast.Expr
+	switch g.r.Intn(9) {
+	case 0, 1:
+		left = mk(&js_ast.EBinary{Op: js_ast.BinOpLogicalOr, Left: x, Right: g.gapLit()})
+	case 2, 3:
+		left = mk(&js_ast.EBinary{Op: js_ast.BinOpLogicalAnd, Left: x, Right: g.gapLit()})
+	case 4:
+		left = mk(&js_ast.EIf{Test: g.ident(), Yes: g.gapLit(), No: x})
+	case 5:
+		left = mk(&js_ast.EIf{Test: g.ident(), Yes: x, No: g.gapLit()})
+	case 6:
+		left = mk(&js_ast.EUnary{Op: js_ast.UnOpNot, Value: mk(&js_ast.EUnary{Op: js_ast.UnOpNot, Value: x})})
+	case 7:
+		left = mk(&js_ast.EBinary{Op: []js_ast.OpCode{js_ast.BinOpStrictNe, js_ast.BinOpLooseEq}[g.r.Intn(2)],
+			Left: mk(&js_ast.EBinary{Op: js_ast.BinOpUShr, Left: x, Right: g.ident()}), Right: mk(&js_ast.ENumber{Value: 0})})
+	default:
+		left = mk(&js_ast.EIf{Test: g.ident(), Yes: g.gapLit(), No: g.gapLit()})
+	}
+	if g.r.Chance(20) {
+		// one more level: ((x || lit) && lit2)
+		op := []js_ast.OpCode{js_ast.BinOpLogicalOr, js_ast.BinOpLogicalAnd}[g.r.Intn(2)]
+		left = mk(&js_ast.EBinary{Op: op, Left: left, Right: g.gapLit()})
+	}
+	var right js_ast.Expr
+	switch g.r.Intn(4) {
+	case 0, 1:
+		right = g.probeCall()
+	case 2:
+		right = mk(&js_ast.EIdentifier{Ref: ast.Ref{InnerIndex: uint32(1000 + g.r.Intn(3))}})
+	default:
+		right = g.expr(d - 1)
+	}
+	op := []js_ast.OpCode{js_ast.BinOpNullishCoalescing, js_ast.BinOpNullishCoalescing, js_ast.BinOpLogicalOr, js_ast.BinOpLogicalAnd}[g.r.Intn(4)]
+	return mk(&js_ast.EBinary{Op: op, Left: left, Right: right})
 }
 
 func cloneList(es []js_ast.Expr) []js_ast.Expr {
@@ -657,6 +729,17 @@ func extraCases(r *Rng, n int, tier string, cf *CoqFile, st *Stats) {
 	var su []string
 	for i := 0; i < nt; i++ {
 		e := g.expr(r.Range(1, 3))
+		if i%3 == 0 {
+			e = g.logicalWithBooleanLeft(2)
+			switch r.Intn(5) {
+			case 0:
+				e = mk(&js_ast.EBinary{Op: js_ast.BinOpComma, Left: e, Right: g.logicalWithBooleanLeft(1)})
+			case 1:
+				e = mk(&js_ast.EIf{Test: g.ident(), Yes: e, No: g.lit()})
+			case 2:
+				e = mk(&js_ast.EUnary{Op: js_ast.UnOpVoid, Value: e})
+			}
+		}
 		s := coqExpr(e)
 		noOC := r.Chance(25)
 		var unsupported compat.JSFeature
